@@ -27,6 +27,7 @@ class ConcScenario:
     ncpu: int = 1
     readers: List[int] = field(default_factory=list)          # indices of threads that only read: blocking/spinning there is a violation (C12)
     yield_loads: bool = True            # loads are scheduling points too (False: only writes, CAS, locks, park/unpark)
+    inv: Optional[str] = None           # 'resize': evaluate the resize-protocol invariant (fv/resize_inv.py) after every scheduling step
 
 
 class ThreadDriver(MapDriver):
@@ -251,6 +252,10 @@ class ConcRunner:
                                     kept.add(nv.id)
                             else:
                                 rec['result'] = (seen[0], nv.id if nv else None)
+                        elif kind == 'retain_force_none':
+                            # retain_force with a predicate that rejects everything: for the final contents it acts like clear()
+                            rec['op'] = ('clear',)
+                            dt.retain(lambda itq, kp, vp: Sc(False, 'bool'), force=True)
                         elif kind == 'clear':
                             rec['op'] = ('clear',)
                             dt.clear()
@@ -265,7 +270,20 @@ class ConcRunner:
                 lt = LThread(ti + 1, 'T%d' % (ti + 1), body)
                 attach(itx, sched, lt)
                 sched.threads.append(lt)
+            inv = None
+            if sc.inv == 'resize':
+                from .resize_inv import ResizeInvariant
+                inv = ResizeInvariant(it0, d0)
+                inv.check('the sequential setup')
+                sched.on_step = inv.check
+            elif sc.inv == 'treelock':
+                from .resize_inv import WriterPreference
+                inv = WriterPreference(it0, d0)
+                inv.check('the sequential setup')
+                sched.on_step = inv.check
             sched.run()
+            if inv is not None:
+                self.inv_checks = getattr(self, 'inv_checks', 0) + inv.checked
             self.sched_points += sched.step
             self.max_switches = max(self.max_switches, sched.switches)
             # final contents through the sequential interpreter
